@@ -5,6 +5,7 @@ ChannelSlots::remove, Inner::handle_channel_readable (stale wake-up), OutputBuff
 side IoLoopHandle::{call_nowait, send, recv, check_recv_for_error}.
 """
 from iocommon import *
+from ioreplay import Validator, report_io
 
 
 def body(ctx):
@@ -17,6 +18,8 @@ def body(ctx):
     ctx.assume("reply and consumer receivers are alive (dead endpoints: C05); at most one unread reply per channel")
     viol = []
     npaths = 0
+    VAL = Validator(ctx, prog)
+    seen_val = set()
     f_readable = prog.method('Inner', 'handle_channel_readable')
     for shape in shapes:
         for nc in ncons:
@@ -114,8 +117,11 @@ def body(ctx):
                                group='server Channel.Close(n): slot n removed + error with n/code/text to its caller and consumers + CloseOk(n) queued; every other slot untouched; connection stays Steady',
                                sample={'collector': shape, 'consumers': nc, 'case': label, 'frames': [item_desc(prog, i) for i in items]})
                 if m is not None:
-                    viol.append((label, shape, nc, fs.describe(m), out, ctx.explain(m, conds)))
+                    report_io(ctx, prog, f"channel-close:{label}", f"collector {shape}, {nc} consumers: channel close handling ({label}) breaks the claim", s, w, [out], s.pc, z3.And(*conds), [fs], shape=shape, infoA=infoA)
                     continue
+                if len(VAL.cases) < ctx.q(4, 16) and label in ('server-close', 'client-close-confirmed', 'ignored', 'bogus') and (label, shape, nc) not in seen_val:
+                    seen_val.add((label, shape, nc))
+                    VAL.add(s, w, [out], s.pc, [fs], shape=shape, infoA=infoA, label=f"{shape}/{nc}/{label}")
                 # stale wake-up for the removed slot: Ok(()) and no effect
                 if label == 'server-close' and a_gone:
                     s2 = s.fork()
@@ -129,6 +135,7 @@ def body(ctx):
                         if m3 is not None:
                             viol.append(('stale-wakeup', shape, nc, {}, err_name(prog, rv3)))
     ctx.extra['process_paths'] = npaths
+    VAL.run()
     handle_side(ctx, prog, viol)
     ctx.twin('c09.twin', [], z3.BoolVal(npaths == 0))
     for v in viol[:5]:
